@@ -53,6 +53,32 @@ def apply_mutations(files, muts):
     return bytes(buf)
 
 
+def nest_program(shape, d):
+    """Deeply nested source text of one syntactic shape (the property quantifies over all programs)."""
+    t = {
+        "obj": ("{a:" * d, "1", "}" * d),
+        "arr": ("[" * d, "1", "]" * d),
+        "paren": ("(" * d, "1", ")" * d),
+        "local": ("local x = " * d, "1", "; x" * d),
+        "if": ("if true then " * d, "1", " else 0" * d),
+        "func": ("function() " * d, "1", ""),
+        "callarg": ("std.length(" * d, "[]", ")" * d),
+        "unary": ("-" * d, "1", ""),
+        "binary": ("1+(" * d, "1", ")" * d),
+        "index": ("[" * d, "0", "][0]" * d),
+        "objcomp": ("{[k]: " * d, "1", " for k in ['a']}" * d),
+        "arrcomp": ("[" * d, "1", " for x in [1]]" * d),
+        "error": ("error " * d, "'e'", ""),
+        "assert": ("assert true; " * d, "1", ""),
+        "field": ("{a: 1}", "", ".a" * 0) if d == 0 else ("", "{a: " * 1 + "1}" , "" ),
+        "fieldplus": ("{a+: " * d, "{}", "}" * d),
+        "textual": ("1 " + "+ 1 " * d, "", ""),
+    }[shape]
+    if shape == "field":
+        return "local o = {a: self}; o" + ".a" * d
+    return t[0] + t[1] + t[2]
+
+
 def outcome_of(r):
     if "panic" in r:
         return "panic"
@@ -102,7 +128,7 @@ def run(tier, seed):
                              f"only in implementation {sorted(set(impl_tab) - spec_tab)}: update StdTable in spec/MC_Pipeline.tla")
 
     big = tier == "thorough"
-    plan = [("bytes", 3 if not big else 4), ("std1", 0), ("std2", 0), ("std3", 0), ("std4", 0)]
+    plan = [("bytes", 3 if not big else 4), ("nest", 0), ("std1", 0), ("std2", 0), ("std3", 0), ("std4", 0)]
     for uni, maxlen in plan:
         res = run_tlc("MC_Pipeline", cfg(uni, maxlen, big, len(files)), f"c01_{uni}", workers=8, timeout=3000, coverage=False)
         tlc_must_pass(res, f"universe {uni}")
@@ -110,6 +136,9 @@ def run(tier, seed):
         for c in res.lines("CASE"):
             if c["kind"] == "bytes":
                 inputs.append(("bytes", {"k": "eval", "src_bytes": c["bytes"], "max_stack": 100}))
+            elif c["kind"] == "nest":
+                inputs.append((f"nest:{c['shape']}:{c['depth']}",
+                               {"k": "eval", "src": nest_program(c["shape"], c["depth"]), "max_stack": 500}))
             else:
                 if impl_tab.get(c["fn"]) != len(c["args"]):
                     raise vlib.ToolError(f"arity of std.{c['fn']} differs: spec {len(c['args'])}, implementation {impl_tab.get(c['fn'])}")
@@ -145,9 +174,11 @@ def run(tier, seed):
         lines.append({"ev": "run", "outcome": o})
         if o in ("panic", "crash"):
             src = case.get("src") or bytes(case["src_bytes"]).decode("utf-8", "replace")
-            fn = label.split(":")[1] if label.startswith("std:") else label
-            chk.disagree({"kind": "crash", "class": o, "input": label.split(":")[0], "fn": fn, "msg": vlib.crash_desc(r)[:200]},
-                         f"{label}: `{src[:300]}` -> {vlib.crash_desc(r)[:300]}", case)
+            fn = label.split(":")[1] if ":" in label else label
+            payload = case if len(src) < 2000 else {"k": "eval", "generator": label, "src_prefix": src[:200]}
+            chk.disagree({"kind": "crash", "class": o, "input": label.split(":")[0], "fn": fn,
+                          "depth": label.split(":")[2] if label.startswith("nest:") else "", "msg": vlib.crash_desc(r)[:200]},
+                         f"{label}: `{src[:120]}` -> {vlib.crash_desc(r)[:300]}", payload)
             bad_idx.append(len(lines) - 1)
     # TLC validates the recorded outcomes (the runs with a crash removed: they are reported above,
     # and one of them, if any, must be rejected by TLC)
